@@ -241,7 +241,8 @@ func (d *client) newRequest(body []byte) (request, error) {
 
 	req := request{Request: r}
 	switch Compression(d.cfg.Compression) {
-	case NoCompression:
+	default:
+		// NoCompression, and any unknown value, sends the payload as is.
 		r.ContentLength = (int64)(len(body))
 		req.bodyReader = bodyReader(body)
 	case GzipCompression:
